@@ -72,7 +72,10 @@ type ecase struct {
 const a2lScript = `#!/bin/sh
 while read a; do
   echo "0x$a"
-  if [ "$a" = "ffffffffffffffff" ]; then echo '??'; echo '??:0'; else echo "s$a"; echo "src.c:7"; fi
+  case "$a" in
+    ffffffffffffffff|1f|3f) echo '??'; echo '??:0';;
+    *) echo "s$a"; echo "src.c:7";;
+  esac
 done
 `
 
@@ -496,6 +499,14 @@ func a2lCase(raw json.RawMessage, c *ecase, idx int, nmDir string) {
 			got = fr[len(fr)-1].Func
 		}
 		plain := fmt.Sprintf("s%x", q.Q) // what the scripted addr2line answers for the link-time address
+		if q.Q == 0x1f || q.Q == 0x3f {
+			// addresses the scripted addr2line knows nothing about ("??" / "??:0", exactly its answer to the sentinel):
+			// no frame for them - and the conversation stays in step: the queries that follow get their own answers
+			if got != "" {
+				run.Violate("a2l", "a2l-unknown-address", fmt.Sprintf("table %v: addr2line answered ?? for %#x; SourceLine names %q", c.Table, q.Q, got), raw, nil)
+			}
+			continue
+		}
 		ok := got == plain && (len(c.Table) == 0 || q.Q < c.Table[0].A || q.Beyond)
 		for i, s := range c.Table {
 			if s.A != q.Best || q.Q < s.A {
